@@ -4,7 +4,7 @@
    (every exported name x parameter grid x a 40-value cross-type domain, model vs implementation) plus the source
    fingerprints.  The theorems state what the model computes, for all parameters and all values. *)
 From Coq Require Import QArith Bool List String.
-From PP Require Import Prelude.Base Prelude.Val Prelude.Pred Prelude.Sem Lemmas.Std Lemmas.AtomsSpec Lemmas.TupleOf.
+From PP Require Import Prelude.Base Prelude.Val Prelude.Pred Prelude.Sem Lemmas.Std Lemmas.AtomsSpec Lemmas.TupleOf Lemmas.DictOf.
 Import ListNotations.
 Open Scope Q_scope.
 
@@ -90,3 +90,18 @@ Proof.
   split; [exact (tuple_of_false_or_raises W ps)|exact (tuple_of_not_iterable W ps)].
 Qed.
 Print Assumptions C08_tuple_of.
+
+(* is_dict_of_p((k1, v1) .. (kn, vn)) (Lemmas/DictOf.v: a list of (key predicate, value predicate) pairs; a dict is its items in
+   insertion order): True exactly when the dict is empty only for no pair at all, every item is accepted by some pair (the
+   pairs before it answering False without raising) and no pair whose key predicate accepts an item's key is contradicted by
+   that item's value (every check answering); an accepted item has its key satisfying the key predicate and its value the
+   value predicate of one and the same pair *)
+Theorem C08_dict_of : forall W kvs items,
+  (dict_of_items W kvs items = Some true <->
+     (items = [] -> kvs = []) /\
+     Forall (fun it => any_of (fun kv => kv_and W kv it) kvs = Some true) items /\
+     Forall (fun kv => Forall (fun it => kv_viol W kv it = Some false) items) kvs) /\
+  (forall it, any_of (fun kv => kv_and W kv it) kvs = Some true ->
+     exists kv, In kv kvs /\ ev W (fst kv) (fst it) = Some true /\ ev W (snd kv) (snd it) = Some true).
+Proof. intros W kvs items. split; [exact (dict_of_true W kvs items)|intros it; exact (accepted_means W kvs it)]. Qed.
+Print Assumptions C08_dict_of.
